@@ -629,11 +629,11 @@ struct Driver {
     for (size_t k = 0; k < insts.size(); ++k) {
       I& in = *insts[k];
       if constexpr (F::ru && F::has_u) {
-        if (k == 0) c.count(std::string("swapcls.") + (z1 ? "z1." : "") + cls + (in.m->is_zero_entry(in.col(i), in.rowid[i + 1], false) ? ",u0" : ",u1") + (!determined ? ",any" : kept ? ",kept" : ",exch"));
+        if (k == 0) c.count(std::string(F::ru ? "swapcls.ru." : "swapcls.chain.") + (z1 ? "z1." : "") + cls + (in.m->is_zero_entry(in.col(i), in.rowid[i + 1], false) ? ",u0" : ",u1") + (!determined ? ",any" : kept ? ",kept" : ",exch"));
       } else if constexpr (!F::ru) {
-        if (k == 0) c.count(std::string("swapcls.") + (z1 ? "z1." : "") + cls + (in.m->is_zero_entry(in.col(i + 1), in.ids[i]) ? ",e0" : ",e1") + (!determined ? ",any" : kept ? ",kept" : ",exch"));
+        if (k == 0) c.count(std::string(F::ru ? "swapcls.ru." : "swapcls.chain.") + (z1 ? "z1." : "") + cls + (in.m->is_zero_entry(in.col(i + 1), in.ids[i]) ? ",e0" : ",e1") + (!determined ? ",any" : kept ? ",kept" : ",exch"));
       } else {
-        if (k == 0) c.count(std::string("swapcls.") + (z1 ? "z1." : "") + cls + (!determined ? ",any" : kept ? ",kept" : ",exch"));
+        if (k == 0) c.count(std::string(F::ru ? "swapcls.ru." : "swapcls.chain.") + (z1 ? "z1." : "") + cls + (!determined ? ",any" : kept ? ",kept" : ",exch"));
       }
       set_ctx(in, i, ids_before[k], w_before);
       rets.push_back(do_swap(in, i, z1));
